@@ -843,6 +843,133 @@ def _inl(rule):
     return run
 
 
+def _globals_params(fi):
+    """Parameters of a template method whose value ends up in
+    `self.globals` (the construction-time layers)."""
+    flow = set()
+    for n in own_nodes(fi.node):
+        if isinstance(n, ast.Assign) and any(
+                isinstance(t, ast.Attribute) and t.attr == 'globals' and
+                isinstance(t.value, ast.Name) and t.value.id == 'self'
+                for t in n.targets):
+            for x in ast.walk(n.value):
+                if isinstance(x, ast.Name):
+                    flow.add(x.id)
+        if isinstance(n, ast.Call) and isinstance(n.func, ast.Attribute) \
+                and n.func.attr in ('update', 'setdefault') and \
+                norm(n.func.value) == 'self.globals':
+            for a in n.args:
+                for x in ast.walk(a):
+                    if isinstance(x, ast.Name):
+                        flow.add(x.id)
+    changed = True
+    while changed:
+        changed = False
+        for n in own_nodes(fi.node):
+            src = dst = None
+            if isinstance(n, ast.Assign) and isinstance(
+                    n.targets[0], ast.Subscript) and isinstance(
+                    n.targets[0].value, ast.Name):
+                dst, src = n.targets[0].value.id, n.value
+            elif isinstance(n, ast.Call) and isinstance(
+                    n.func, ast.Attribute) and n.func.attr == 'update' \
+                    and isinstance(n.func.value, ast.Name) and n.args:
+                dst, src = n.func.value.id, n.args[0]
+            elif isinstance(n, ast.Assign) and isinstance(
+                    n.targets[0], ast.Name):
+                dst, src = n.targets[0].id, n.value
+            if dst in flow and src is not None:
+                for x in ast.walk(src):
+                    if isinstance(x, ast.Name) and x.id not in flow:
+                        flow.add(x.id)
+                        changed = True
+    return [p_ for p_ in fi.params() if p_ in flow]
+
+
+def _mentions_vars_layer(e, fi, model, _depth=0):
+    for x in ast.walk(e):
+        if isinstance(x, ast.Attribute) and x.attr == '_vars':
+            return True
+        if isinstance(x, ast.Constant) and x.value == '_vars':
+            return True
+        if isinstance(x, ast.Name) and _depth < 3:
+            for d in model.local_defs(fi, x.id):
+                if isinstance(d, ast.AST) and _mentions_vars_layer(
+                        d, fi, model, _depth + 1):
+                    return True
+    return False
+
+
+def rule_layers(model):
+    r = RuleResult('C02.R9', 'the variables set on a template (the _vars '
+                   'layer, second in precedence) are never handed to the '
+                   'construction-time layers (globals: keyword defaults and '
+                   'construction mapping, last in precedence) when a '
+                   'template is initialised, restored or re-edited')
+    S = model.cls('DT_String', 'String')
+    classes = [S] + list(model.subclasses(S))
+    fm = model.modules['DT_String'].classes.get('FileMixin')
+    if fm is not None:
+        classes.append(fm)
+    sinks = {}
+    for ci in classes:
+        for name, fi in ci.methods.items():
+            ps = _globals_params(fi)
+            if ps:
+                sinks[name] = (fi, ps)
+    if 'initvars' not in sinks:
+        raise AnalysisError('C02.R9: String.initvars does not set '
+                            'self.globals from its parameters')
+    n = 0
+    seen = set()
+    for ci in classes:
+        for fi in ci.methods.values():
+            if id(fi) in seen:
+                continue
+            seen.add(id(fi))
+            for x in own_nodes(fi.node):
+                # direct store into the globals layer
+                if isinstance(x, ast.Assign) and any(
+                        norm(t) == 'self.globals' for t in x.targets):
+                    n += 1
+                    bad = _mentions_vars_layer(x.value, fi, model)
+                    r.instance(fi.where, x, 'MIXES LAYERS' if bad
+                               else 'own layer')
+                    if bad:
+                        r.finding(fi.where, x, 'the template variables '
+                                  '(_vars) are stored as construction-time '
+                                  'defaults: they lose against the client '
+                                  'and the call mapping', node=x, ctx=fi)
+                if not (isinstance(x, ast.Call) and isinstance(
+                        x.func, ast.Attribute) and x.func.attr in sinks and
+                        norm(x.func.value) == 'self'):
+                    continue
+                g, ps = sinks[x.func.attr]
+                gp = g.params()[1:]
+                n += 1
+                bad = None
+                for i, a in enumerate(x.args):
+                    if i < len(gp) and gp[i] in ps and \
+                            _mentions_vars_layer(a, fi, model):
+                        bad = a
+                for kw in x.keywords:
+                    if kw.arg in ps and _mentions_vars_layer(
+                            kw.value, fi, model):
+                        bad = kw.value
+                r.instance(fi.where, x, 'MIXES LAYERS' if bad is not None
+                           else 'own layers')
+                if bad is not None:
+                    r.finding(fi.where, x, f'`{norm(bad)}` (the variables '
+                              'set on the template) is handed to '
+                              f'{x.func.attr}(), which stores it as '
+                              'construction-time defaults: after this the '
+                              'template variables lose against the client '
+                              'object and the call mapping', node=x, ctx=fi)
+    if n < 2:
+        raise AnalysisError(f'C02.R9: only {n} layer stores found')
+    return r
+
+
 def rule_block_namespace(model):
     r = RuleResult('C02.R8', 'the mapping dtml-in lays over the namespace '
                    'answers only its own names (keys with a dash, or keys '
@@ -855,7 +982,7 @@ def rule_block_namespace(model):
 INLINED_VIEW = True
 RULES_PLAIN = [rule_push_order, rule_ctor, rule_call_flag, rule_direction,
                rule_scoping, rule_instance_state, rule_keyword_namespace,
-               rule_block_namespace]
+               rule_block_namespace, rule_layers]
 RULES = [_inl(r_) for r_ in RULES_PLAIN] if INLINED_VIEW else RULES_PLAIN
 EXPLANATION = (
     'Forward dataflow of the precedence class of every namespace push along '
